@@ -5,9 +5,11 @@ import (
 	"fmt"
 	"os"
 	"path/filepath"
+	"runtime"
 	"sort"
 	"strings"
 	"testing"
+	"time"
 
 	"verif/harness/ev"
 )
@@ -46,6 +48,86 @@ func violation(t failer, prop, kind, sig string, c interface{}, format string, a
 		_ = os.WriteFile(out, b, 0o644)
 	}
 	t.Fatalf("VIOLATION-DETAIL property=%s kind=%s signature=%s: %s", prop, kind, sig, msg)
+}
+
+// lockedServerGoroutines returns the tacquito frames of goroutines that are waiting for a lock or a
+// semaphore inside tacquito code in two samples a second apart (same goroutines, same places): with
+// the harness idle nothing can release them.  "" if there is none.
+func lockedServerGoroutines() string {
+	sample := func() map[string]string {
+		buf := make([]byte, 1<<20)
+		buf = buf[:runtime.Stack(buf, true)]
+		out := map[string]string{}
+		for _, g := range strings.Split(string(buf), "\n\n") {
+			nl := strings.IndexByte(g, '\n')
+			if nl < 0 || !strings.Contains(g, "github.com/facebookincubator/tacquito") {
+				continue
+			}
+			head := g[:nl]
+			if !(strings.Contains(head, "Lock") || strings.Contains(head, "semacquire") || strings.Contains(head, "sync.Cond.Wait") || strings.Contains(head, "sync.WaitGroup.Wait")) {
+				continue
+			}
+			if strings.Contains(g, "verif/harness/transport.(*Conn).Read") || strings.Contains(g, "transport.(*Listener).Accept") {
+				continue // waiting for the harness
+			}
+			var fs []string
+			for _, ln := range strings.Split(g, "\n") {
+				if strings.HasPrefix(ln, "github.com/facebookincubator/tacquito") {
+					if i := strings.LastIndex(ln, "("); i > 0 {
+						ln = ln[:i]
+					}
+					fs = append(fs, ln)
+					if len(fs) == 4 {
+						break
+					}
+				}
+			}
+			id := strings.Fields(head)
+			if len(id) >= 2 && len(fs) > 0 {
+				out[id[1]] = head[strings.Index(head, "["):] + " " + strings.Join(fs, " < ")
+			}
+		}
+		return out
+	}
+	a := sample()
+	if len(a) == 0 {
+		return ""
+	}
+	time.Sleep(time.Second)
+	b := sample()
+	var keep []string
+	for id, f := range a {
+		if b[id] == f && !strings.Contains(f, "WaitGroup") {
+			keep = append(keep, f)
+		}
+	}
+	sort.Strings(keep)
+	return strings.Join(keep, "\n")
+}
+
+// deadlockVerdict is called where a wait on the scripted objects has run into the watchdog.  If a
+// goroutine of the server is stuck on a lock inside tacquito code, that - not the timeout - is the
+// verdict: the case journalled last is saved as the failing case.  Returns nil if nothing is stuck.
+func deadlockVerdict(what string) error {
+	frames := lockedServerGoroutines()
+	if frames == "" {
+		return nil
+	}
+	out := os.Getenv("VERIF_FAIL_OUT")
+	prop, kind := "C00", "deadlock"
+	if out != "" {
+		if b, err := os.ReadFile(out + ".journal"); err == nil {
+			var j Saved
+			if json.Unmarshal(b, &j) == nil {
+				prop = j.Property
+				j.Kind, j.Signature = kind, prop+":server-goroutine-deadlocked"
+				j.Message = fmt.Sprintf("%s, and a goroutine of the server is blocked on a lock inside tacquito that nothing can release:\n%s", what, frames)
+				nb, _ := json.MarshalIndent(j, "", " ")
+				_ = os.WriteFile(out, nb, 0o644)
+			}
+		}
+	}
+	return fmt.Errorf("VIOLATION-DETAIL property=%s kind=%s signature=%s:server-goroutine-deadlocked: %s; blocked in:\n%s", prop, kind, prop, what, frames)
 }
 
 func verifRoot() string {
